@@ -20,8 +20,15 @@ def search(rec, direction):
     n = len(vecs)
     x, fx = vecs[0]
     y, fy = vecs[1]
-    z, fz = vecs[n - 2]
-    z0, f0 = vecs[n - 1]
+    nb = 2 if (rec["kind"] == "real" and rec["family"] in zoo.COMPLEX_INPUT_OK) else 0    # trailing (Re, Im) pair of the complex-input probe
+    z, fz = vecs[n - 2 - nb]
+    z0, f0 = vecs[n - 1 - nb]
+    if nb:
+        (xr, zr), (xi, zi) = vecs[n - 2], vecs[n - 1]
+        M_ = rec["A"] if direction == "forward" else rec["B"]
+        if max(np.abs(M_ @ xr - zr).max(initial=0), np.abs(M_ @ xi - zi).max(initial=0)) > 1e-9 * (1 + np.abs(zr).max(initial=0) + np.abs(zi).max(initial=0)):
+            return {"family": rec["family"], "params": rec["params"], "direction": direction, "kind": "Op(x + i y) != Op(x) + i Op(y)",
+                    "x": [str(t) for t in xr], "y": [str(t) for t in xi], "observed_re": [str(t) for t in zr], "observed_im": [str(t) for t in zi]}
     out = {"family": rec["family"], "params": rec["params"], "direction": direction}
     sc = 1 + max(np.abs(fz).max(initial=0), np.abs(fx).max(initial=0), np.abs(fy).max(initial=0))
     if np.abs(f0).max(initial=0) > 1e-9:
@@ -45,7 +52,13 @@ def replay(rp):
     f = W.fwd if rp["direction"] == "forward" else W.adj
     n = W.N if rp["direction"] == "forward" else W.M
     cv = lambda L: np.array([complex(t) for t in L])
-    if rp["kind"].startswith("Op(0)"):
+    if rp["kind"].startswith("Op(x + i y)"):
+        raw = op.matvec if rp["direction"] == "forward" else op.rmatvec
+        x, y = cv(rp["x"]).real, cv(rp["y"]).real
+        z = np.asarray(raw(x + 1j * y))
+        ref = np.asarray(raw(x)) + 1j * np.asarray(raw(y))
+        bad = np.abs(z - ref).max() > 1e-9 * (1 + np.abs(ref).max())
+    elif rp["kind"].startswith("Op(0)"):
         bad = np.abs(f(np.zeros(n))).max() > 1e-9
     elif rp["kind"].startswith("Op(a"):
         a, b, x, y = complex(rp["a"]), complex(rp["b"]), cv(rp["x"]), cv(rp["y"])
